@@ -442,6 +442,10 @@ def extras(lits):
             F(1, "optional", T("i32"), "a"), F(7, "optional", T("string"), "g"), F(5, "optional", T("E"), "e")])], "Op2",
          M(("a", ID("k_i32_a")), ("g", ID("b.q_string_a")), ("e", ID("k_e_a")))),
     ]
+    # the only use of the include is an enum's members, written where integers are expected (no type, no constant of it)
+    xs.append(("enummemberasnumber", [], "i32", ID("b.IE.R")))
+    xs.append(("enummembersasnumbers", [], "map<i32,list<i32>>",
+               {"m": [[ID("b.IE.Q"), {"l": [ID("b.IE.P"), ID("b.IE.R")]}], [I(9), {"l": []}]]}))
     xs.append(("constofincludedtypedefonly", [{"file": 2, "sec": "typedefs", "d": {"name": "TDonly", "type": {"n": "double"}}}],
                "b.TDonly", D("1.5")))
     return [{"id": "x%d" % (i + 1), "way": w, "defs": defs, "ct": ttype(idl.type_from_str(ct)), "cv": lits.cv(cv)}
@@ -449,7 +453,7 @@ def extras(lits):
 
 
 # cases that get a program of their own (nothing else in it uses what they use)
-ISOLATED_WAYS = {"constofincludedtypedefonly"}
+ISOLATED_WAYS = {"constofincludedtypedefonly", "enummemberasnumber", "enummembersasnumbers"}
 NO_STRUCT_WAYS = {"constofincludedtypedefonly"}
 
 
